@@ -211,6 +211,7 @@ func Main(t *testing.T, engines map[string]EngineFunc) {
 	printTrace := os.Getenv("VERIF_PRINT_TRACE") != ""
 	t0 := time.Now()
 	minimised := map[string]bool{}
+	nReplays := 0 // replay files written by this worker (capped)
 	for i := 0; i < count; i++ {
 		if budget > 0 && time.Since(t0) > time.Duration(budget)*time.Second {
 			break
@@ -222,11 +223,12 @@ func Main(t *testing.T, engines map[string]EngineFunc) {
 				fmt.Println("TRACE", seed, l)
 			}
 		}
-		if v := rc.Res.Violation; v != nil && replayDir != "" {
+		if v := rc.Res.Violation; v != nil && replayDir != "" && nReplays < 12 {
+			nReplays++
 			sig := v.Sig()
 			rf := &ReplayFile{Prop: prop, Tier: tier, Seed: seed, Tape: rc.Tape.Rec,
 				OrigTapeLen: len(rc.Tape.Rec), Violation: v, Trace: rc.Trace}
-			if !minimised[sig] && len(minimised) < 6 {
+			if !minimised[sig] && len(minimised) < 6 && !isKnown(v) {
 				minimised[sig] = true
 				mt, runs, mrc := Minimize(t, eng, prop, tier, seed, rc.Tape.Rec, v,
 					time.Duration(minS)*time.Second)
@@ -364,6 +366,37 @@ func Minimize(t *testing.T, eng EngineFunc, prop, tier string, seed int64, tape 
 	}
 	trim()
 	return cur, runs, best
+}
+
+// knownSigs holds the known findings the driver passes in VERIF_KNOWN (JSON
+// list of {"clause":..., "facts":{...}}): violations matching one are recorded
+// but not minimised (they are reported as KNOWN-FINDING, not as violations).
+var knownSigs []struct {
+	Clause string            `json:"clause"`
+	Facts  map[string]string `json:"facts"`
+}
+var knownLoaded bool
+
+func isKnown(v *Violation) bool {
+	if !knownLoaded {
+		knownLoaded = true
+		json.Unmarshal([]byte(os.Getenv("VERIF_KNOWN")), &knownSigs)
+	}
+	for _, k := range knownSigs {
+		if k.Clause != v.Clause {
+			continue
+		}
+		ok := true
+		for fk, fv := range k.Facts {
+			if v.Facts[fk] != fv {
+				ok = false
+			}
+		}
+		if ok {
+			return true
+		}
+	}
+	return false
 }
 
 var registry = map[string]EngineFunc{}
